@@ -18,6 +18,10 @@ CLAIMED = {
          "Proved by induction over every event list: the agent's current config is the effective one (node-specific if it exists, else group/default), a valid effective config is the most recently delivered one, no invalid config is ever delivered; per-step theorems: group updates never deliver over or replace a node config but are remembered, node deletion falls back to the current group config, duplicates (same uid+generation, generation != 0) change nothing, valid non-duplicate node updates are delivered in that step. Tie: regenerated facts on statement order in updateGroupConfig/updateNodeConfig/updateConfig/sameConfigVersion, and exhaustive correspondence over all sequences of length <= 4 (quick) / 5 (thorough) over 14 events plus random longer ones, with predicates evaluated from the events alone.",
          "Trusted: kernel, extractor, harness/driver. notifyFn errors, status patching and watch plumbing (Start's select loop) are outside the model.",
          "DESIGN.md §6 C17"),
+ "C18": ("proof", "Lean 4 theorems (precedence, permutation invariance of lookups and of the suffix-classified fold, others-irrelevant, explicit-over-class) + regenerated key-form facts + differential correspondence under Go's randomised map order",
+         "Proved: the three-form lookup returns container form, else pod form, else bare key, depends only on those three keys and is invariant under any permutation of a map with unique keys; the memory-qos/memtierd fold over ANY iteration order computes the order-free spec 'container-specific entry else pod-level entry' (effFold_spec), hence is permutation invariant and ignores entries addressed elsewhere; in memory-qos CreateContainer an explicitly annotated parameter ends up with its explicit value in every iteration order whenever the call succeeds. Tie: regenerated key forms/suffixes/override flags, and correspondence of the four real implementations (each evaluated repeatedly so Go's per-loop map order varies) against the model and against the precedence predicate computed from the raw map.",
+         "String-level classification (strings.CutSuffix vs the model's classify) is tied by sampling only; container names without '/'; class-derived values come from a probe of the real code.",
+         "DESIGN.md §6 C18"),
  "C20": ("proof", "Lean 4 theorems over an integer model + regenerated constants + exhaustive correspondence on the property's domain",
          "All five arithmetic clauses are Lean theorems for every input (shares round trip <=1/<=2, exact multiples of 125, quota exact from 10 mCPU, monotonicity, OOM table total and invertible for every capacity >= 1 MiB and every float-estimate behaviour within tolerance). The model is tied to the code by regenerated constants (obligation gen_consts_ok) and by running the real functions on every value of the property's domain (0..256000 mCPU, shares 2..262144) plus sampled OOM tables and estimateResourceRequirements cases; the driver also evaluates the property's predicates on the implementation's own values.",
          "Trusted: Lean kernel (+propext, Classical.choice, Quot.sound), the extractor, harness and driver; float64 == exact round-half-up is checked exhaustively on the domain, sampled outside; OOM table sampled over capacities 2^20..2^50.",
